@@ -141,3 +141,161 @@ package git
 //gvc:  sink Chroot requires gate: wt_root(arg0) || (spec_wtpath(strid(arg0)) && spec_wtnosym(strid(arg0)))
 //gvc:  sink Lstat requires gate: wt_root(arg0) || (spec_wtpath(strid(arg0)) && spec_wtnosym(strid(arg0)))
 //gvc:end
+
+// Property C22 (garbage collection never deletes live objects), in three
+// layers. (1) Prune hands an object to the delete handler, and
+// createNewObjectPack deletes a loose object, only according to the walker's
+// seen set: never a seen object for Prune, only seen (hence packed) objects
+// for repacking. (2) RepackObjects never deletes the pack it has just
+// written: createNewObjectPack returns exactly the pack id the encoder
+// returned, and the delete loop skips it. (3) The seen set is closed under
+// the object graph: see walkObjectTree below.
+
+//gvc:ghost packfile.Encoder.packid int
+
+//gvc:func (*objectWalker).isSeen
+//gvc:  props C22
+//gvc:  theory int
+//gvc:  requires nn: p != nil
+//gvc:  ensures member: result == has(p.seen, hash)
+//gvc:end
+
+//gvc:func (*objectWalker).add
+//gvc:  props C22
+//gvc:  theory int
+//gvc:  requires nn: p != nil
+//gvc:  requires sep: p.seen != p.missing
+//gvc:  modifies map:has, map:val:struct{}
+//gvc:  ensures member: has(p.seen, hash)
+//gvc:  ensures grow: forall(k, old(has(p.seen, k)) ==> has(p.seen, k))
+//gvc:  ensures only: forall(k, has(p.seen, k) ==> old(has(p.seen, k)) || k == keyid(hash))
+//gvc:  ensures missing: forall(k, has(p.missing, k) == old(has(p.missing, k)))
+//gvc:end
+
+//gvc:func (*Repository).Prune
+//gvc:  props C22
+//gvc:  theory int
+//gvc:  opt coarse
+//gvc:  opt frame args
+//gvc:  sink Handler requires dead: !has(pw.seen, arg0) && pw.#indexed
+//gvc:  sink DeleteLooseObject requires never: false
+//gvc:end
+
+//gvc:func (*Repository).createNewObjectPack
+//gvc:  props C22
+//gvc:  theory int
+//gvc:  opt coarse
+//gvc:  opt frame args
+//gvc:  sink DeleteLooseObject requires packed: has(ow.seen, arg0)
+//gvc:  ensures named: err == nil ==> keyid(h) == now(enc).#packid
+//gvc:end
+
+//gvc:func (*Repository).RepackObjects
+//gvc:  props C22
+//gvc:  theory int
+//gvc:  opt coarse
+//gvc:  opt frame args
+//gvc:  sink DeleteOldObjectPackAndIndex requires notnew: arg0 != nh
+//gvc:end
+
+// isShallow: whether hash is in the repository's shallow list (trusted: the
+// lazily built lookup map is not followed); it touches neither seen nor
+// missing.
+//gvc:func (*objectWalker).isShallow
+//gvc:  trusted
+//gvc:  results sh err
+//gvc:  modifies map:has, map:val:struct{}, p.shallows
+//gvc:  ensures is: err == nil ==> sh == spec_shallow(keyid(hash))
+//gvc:  ensures seen: forall(k, has(p.seen, k) == old(has(p.seen, k)))
+//gvc:  ensures missing: forall(k, has(p.missing, k) == old(has(p.missing, k)))
+//gvc:end
+
+// walkObjectTree (C22, layer 3): the seen set only grows; on success the
+// walked object is in it, and every object this call added (and did not
+// record as withheld by a promisor remote) has all its children in it. With
+// seen empty at the start of walkAllRefs this makes seen a child-closed set
+// containing every root, i.e. a superset of everything reachable.
+//gvc:func (*objectWalker).walkObjectTree
+//gvc:  props C22
+//gvc:  theory int
+//gvc:  opt coarse
+//gvc:  opt nomerge
+//gvc:  opt frame args
+//gvc:  requires nn: p != nil
+//gvc:  requires sep: p.seen != p.missing
+//gvc:  modifies map:has, map:val:struct{}, p.shallows
+//gvc:  loop 1 invariant sep: p.seen != p.missing
+//gvc:  loop 1 invariant grow: forall(k, old(has(p.seen, k)) ==> has(p.seen, k))
+//gvc:  loop 1 invariant mgrow: forall(k, old(has(p.missing, k)) ==> has(p.missing, k))
+//gvc:  loop 1 invariant self: has(p.seen, hash) && has(p.seen, obj.TreeHash)
+//gvc:  loop 1 invariant done: forall(j, 0, it1, has(p.seen, obj.ParentHashes[j]))
+//gvc:  loop 1 invariant closed: forall(a, has(p.seen, a) && !old(has(p.seen, a)) && !has(p.missing, a) && a != keyid(hash) ==> forall(b, spec_child(a, b) ==> has(p.seen, b)))
+//gvc:  loop 2 invariant sep: p.seen != p.missing
+//gvc:  loop 2 invariant grow: forall(k, old(has(p.seen, k)) ==> has(p.seen, k))
+//gvc:  loop 2 invariant mgrow: forall(k, old(has(p.missing, k)) ==> has(p.missing, k))
+//gvc:  loop 2 invariant self: has(p.seen, hash)
+//gvc:  loop 2 invariant done: forall(j, 0, it2, has(p.seen, obj.Entries[j].Hash))
+//gvc:  loop 2 invariant closed: forall(a, has(p.seen, a) && !old(has(p.seen, a)) && !has(p.missing, a) && a != keyid(hash) ==> forall(b, spec_child(a, b) ==> has(p.seen, b)))
+//gvc:  ensures grow: forall(k, old(has(p.seen, k)) ==> has(p.seen, k))
+//gvc:  ensures mgrow: forall(k, old(has(p.missing, k)) ==> has(p.missing, k))
+//gvc:  ensures self: result == nil ==> has(p.seen, hash)
+//gvc:  ensures closed: result == nil ==> forall(a, has(p.seen, a) && !old(has(p.seen, a)) && !has(p.missing, a) ==> forall(b, spec_child(a, b) ==> has(p.seen, b)))
+//gvc:end
+
+// #indexed: typestate of the walker, "the index entries were walked"; it
+// abstracts walkIndex's internal postcondition `staged` for callers.
+//gvc:ghost objectWalker.indexed bool
+
+// walkIndex (C22, staged objects are roots): every index entry that is not a
+// gitlink and whose object is stored is in seen afterwards; entries are blobs
+// (no children), so closure is preserved.
+//gvc:func (*objectWalker).walkIndex
+//gvc:  props C22
+//gvc:  theory int
+//gvc:  opt coarse
+//gvc:  opt frame args
+//gvc:  requires nn: p != nil
+//gvc:  requires sep: p.seen != p.missing
+//gvc:  modifies map:has, map:val:struct{}, p.#indexed
+//gvc:  loop 1 invariant sep: p.seen != p.missing
+//gvc:  loop 1 invariant grow: forall(k, old(has(p.seen, k)) ==> has(p.seen, k))
+//gvc:  loop 1 invariant mgrow: forall(k, old(has(p.missing, k)) == has(p.missing, k))
+//gvc:  loop 1 invariant done: forall(j, 0, it1, idx.Entries[j].Mode == 0o160000 || has(p.seen, idx.Entries[j].Hash) || spec_absent(keyid(idx.Entries[j].Hash)))
+//gvc:  loop 1 invariant closed: forall(a, has(p.seen, a) && !old(has(p.seen, a)) && !has(p.missing, a) ==> forall(b, spec_child(a, b) ==> has(p.seen, b)))
+//gvc:  ensures grow: forall(k, old(has(p.seen, k)) ==> has(p.seen, k))
+//gvc:  ensures mgrow: forall(k, old(has(p.missing, k)) ==> has(p.missing, k))
+//gvc:  ensures closed: forall(a, has(p.seen, a) && !old(has(p.seen, a)) && !has(p.missing, a) ==> forall(b, spec_child(a, b) ==> has(p.seen, b)))
+//gvc:  ensures staged: result == nil ==> forall(j, 0, len(now(idx).Entries), now(idx).Entries[j].Mode == 0o160000 || has(p.seen, now(idx).Entries[j].Hash) || spec_absent(keyid(now(idx).Entries[j].Hash)))
+//gvc:  grants indexed: result == nil ==> p.#indexed
+//gvc:end
+
+// walkAllRefs (C22): every hash reference the iteration yields is walked
+// (callback postcondition `root`; that ForEach yields every reference and
+// fails if a callback fails is the iterator's assumed behaviour), the index
+// is walked, and everything added is child-closed.
+//gvc:func (*objectWalker).walkAllRefs
+//gvc:  props C22
+//gvc:  theory int
+//gvc:  opt coarse
+//gvc:  opt frame args
+//gvc:  requires nn: p != nil
+//gvc:  requires sep: p.seen != p.missing
+//gvc:  modifies map:has, map:val:struct{}, p.shallows, p.#indexed
+//gvc:  lit 1 requires ref != nil
+//gvc:  lit 1 invariant sep: p.seen != p.missing
+//gvc:  lit 1 invariant grow: forall(k, old(has(p.seen, k)) ==> has(p.seen, k))
+//gvc:  lit 1 invariant mgrow: forall(k, old(has(p.missing, k)) ==> has(p.missing, k))
+//gvc:  lit 1 invariant closed: forall(a, has(p.seen, a) && !old(has(p.seen, a)) && !has(p.missing, a) ==> forall(b, spec_child(a, b) ==> has(p.seen, b)))
+//gvc:  lit 1 ensures root: litresult == nil && ref.t == plumbing.HashReference ==> has(p.seen, ref.h)
+//gvc:  ensures grow: forall(k, old(has(p.seen, k)) ==> has(p.seen, k))
+//gvc:  ensures closed: result == nil ==> forall(a, has(p.seen, a) && !old(has(p.seen, a)) && !has(p.missing, a) ==> forall(b, spec_child(a, b) ==> has(p.seen, b)))
+//gvc:  ensures indexed: result == nil ==> p.#indexed
+//gvc:end
+
+//gvc:func newObjectWalker
+//gvc:  props C22
+//gvc:  theory int
+//gvc:  opt coarse
+//gvc:  opt frame args
+//gvc:  ensures fresh: result != nil && result.seen != result.missing && forall(k, !has(result.seen, k))
+//gvc:end
